@@ -1327,7 +1327,8 @@ def enumerate_edits(ctx, out, stats, motifs=None, per_motif=8):
         else:
             always = [e for e in edits if e[0] in DELETIONS or e in repoint]
             rest = [e for e in edits if e not in always]
-            chosen = always + rng.sample(rest, min(len(rest), per_motif))
+            # (the motifs with several parents / nested instances are the expensive ones: a smaller sample there)
+            chosen = always + rng.sample(rest, min(len(rest), per_motif if mi < 13 else per_motif // 2))
             stats["enumerated_repointing_add_bases"] += len(repoint)
         for e in chosen:
             ops = [json.loads(json.dumps(o)) for o in prefix + queries + [e] + queries]
